@@ -689,6 +689,19 @@ class Desugarer:
                     B.expanded.append('?')
                     return True
                 continue
+            if _is(callee, ('FromResidual::from_residual',)) and len(t['args']) == 1 and t['target'] is not None:
+                # the other half of `expr?` on an Option: from_residual(None) is None - an aggregate, so that a
+                # caller that takes the result apart (a helper returning Option, spliced in) is threaded
+                ty0 = (t.get('targs') or [''])[0]
+                if ty0.startswith('std::option::Option<'):
+                    span = t['span']
+                    B.blocks[bi] = dict(B.blocks[bi],
+                                        stmts=B.blocks[bi]['stmts'] + [assign_place(t['dest'], agg_variant(OPT, 'None', []), span)],
+                                        term=goto(t['target'], span))
+                    B._defs = None
+                    B.expanded.append('?')
+                    return True
+                continue
             if _is(callee, ('bool::then_some',)) and len(t['args']) == 2 and t['target'] is not None:
                 # b.then_some(v): Some(v) when b, None otherwise - a branch, not an opaque call
                 span = t['span']
